@@ -31,7 +31,12 @@ RULE = ("operator programs following the content-stream grammar of ISO 32000-1 F
         "Matrix/Resources), dyadic operands, random width tables incl. code 32 and codes outside the table, a share of "
         "operators with missing / ill-typed operands, serialised and split into 1-4 streams at token boundaries; a second "
         "'wild' stream (excess operands, unknown operators, text operators outside BT, q/Q inside BT, unknown resources) "
-        "is used for the model/implementation tie only.  A case is non-trivial when it is a distinct program that shows "
+        "is used for the model/implementation tie only.  Resources define colour spaces (aliases, ICCBased, CIE-based, "
+        "Separation, Indexed, DeviceN) under a small pool of names shared by all pages, forms and cases; 30% of the documents "
+        "have 2-3 pages with resources of their own (later pages may start with an operator lacking operands; pages may end "
+        "with left-over operands); every later page is also interpreted on its own first and must be reported identically "
+        "(page independence); a failure is re-evaluated in a fresh process, alone or after the documents interpreted before "
+        "it, so that the replay is self-contained.  A case is non-trivial when it is a distinct program that shows "
         ">= 2 glyphs and contains a positioning or spacing operator")
 TRUSTED_BASE = [
     "hand model lean/PdfVerif/Model/Interp.lean of PDFPageInterpreter / PDFTextDevice / LTChar (correspondence-checked "
@@ -51,6 +56,9 @@ ASSUMPTIONS = [
     "operands, balanced q/Q per stream/form, fonts/forms/colour spaces that exist, colour components in [0,1], "
     "forms inherit the caller's graphics state (a page whose Do reaches a form that shows text before any font was selected is outside the domain)",
     "graphicstate.ncolor None is read as 'initial colour'",
+    "cs/CS with a name that is neither a ColorSpace resource of the current content nor a device colour space is ignored "
+    "(a family name that needs parameters, and Pattern, are outside the domain); a form that is already being painted "
+    "is not painted again by pdfminer - the text model gives such a page no meaning (outside the domain)",
 ]
 STATEMENT_STATUS: Dict[str, str] = {
     "C05_program": "proved: for every env (fonts incl. Type 3 / CID / vertical, forms), CTM, resources, split into streams: "
@@ -58,8 +66,8 @@ STATEMENT_STATUS: Dict[str, str] = {
                    "form nesting <= fuel; forms inherit the caller's graphics state)",
     "C05_program_bytes": "proved: the same starting from the bytes of the streams (lexer model of C14 + assembler)",
     "C05_program_any_budget": "proved: the same at every larger nesting budget",
-    "C05_budget_suffices": "proved: with an acyclic (ranked) form table a budget of forms.length is never exhausted, for "
-                           "any program",
+    "C05_budget_suffices": "proved: a budget of forms.length + 1 is never exhausted, for any program and any form table "
+                           "(pdfminer ignores a form that is already being painted)",
     "C05_fuel_stable": "proved: raising the nesting budget never changes a result",
     "C05_step": "proved: one instruction preserves the simulation relation R and yields the same glyphs",
     "C05_forms": "proved: Interp.runForm = TextModel.runForm at every budget from related initial states: a form "
@@ -308,8 +316,8 @@ class Gen:
         if op == "Tf":
             fn = list(res["fonts"])
             name = rng.choice(fn)
-            if self.wild and rng.random() < 0.15:
-                name = "Nofont"
+            if self.wild and rng.random() < 0.25:
+                name = rng.choice(["Nofont", "F1", "F2", "Fa", "T1_0"])     # maybe only defined on another page / in the caller
             return [["/", name], num(rng.choice([10, 12, 8, F(15, 2), 1, 24, F(1, 2), 0, -10]))]
         if op in ("Tj", "'"):
             return [["s", gen_string(rng, self.cur_font(res, st))]]
@@ -328,8 +336,8 @@ class Gen:
         if op == "Do":
             xn = list(res["xobjs"])
             name = rng.choice(xn) if xn else "Nox"
-            if self.wild and rng.random() < 0.15:
-                name = "Nox"
+            if self.wild and rng.random() < 0.25:
+                name = rng.choice(["Nox", "X0", "Fm1", "Im2"])
             return [["/", name]]
         return []
 
@@ -708,7 +716,9 @@ def build_pdf(case: dict) -> bytes:
 
 
 def run_impl(case: dict):
-    """Returns ("ok", [glyph...]) or ("exc", "Type: msg").  glyph = dict of exact Fractions."""
+    """Returns ("ok", [glyph...], dep) or ("exc", "Type@where", None).  glyph = dict of exact Fractions.
+    `dep`: None, or (page index, field) when a page of a multi-page document is reported differently after the
+    pages before it than on its own (fresh resource manager, device and interpreter, run BEFORE the others)."""
     from pdfminer.converter import PDFPageAggregator
     from pdfminer.layout import LTChar, LTFigure
     from pdfminer.pdfdocument import PDFDocument
@@ -716,39 +726,68 @@ def run_impl(case: dict):
     from pdfminer.pdfpage import PDFPage
     from pdfminer.pdfparser import PDFParser
     pdf = build_pdf(case)
-    out: List[dict] = []
-    try:
-        doc = PDFDocument(PDFParser(io.BytesIO(pdf)))
+
+    def glyphs_of(lt):
+        out: List[dict] = []
+
+        def walk(c):
+            for o in c:
+                if isinstance(o, LTChar):
+                    col = o.graphicstate.ncolor
+                    if col is None:
+                        cc = None
+                    elif isinstance(col, (tuple, list)):
+                        cc = [F(x) for x in col]
+                    else:
+                        cc = [F(col)]
+                    out.append({"m": [F(x) for x in o.matrix], "adv": F(o.adv), "bbox": [F(x) for x in o.bbox],
+                                "size": F(o.size), "font": o.fontname, "col": cc})
+                elif isinstance(o, LTFigure):
+                    walk(o)
+        walk(lt)
+        return out
+
+    def interpret(pages):
         rm = PDFResourceManager(caching=bool(case.get("caching", False)))
         dev = PDFPageAggregator(rm, laparams=None)
         it = PDFPageInterpreter(rm, dev)
-        for page in PDFPage.create_pages(doc):
+        res = []
+        for page in pages:
             it.process_page(page)
-            lt = dev.get_result()
+            res.append(glyphs_of(dev.get_result()))
+        return res
 
-            def walk(c):
-                for o in c:
-                    if isinstance(o, LTChar):
-                        col = o.graphicstate.ncolor
-                        if col is None:
-                            cc = None
-                        elif isinstance(col, (tuple, list)):
-                            cc = [F(x) for x in col]
-                        else:
-                            cc = [F(col)]
-                        out.append({"m": [F(x) for x in o.matrix], "adv": F(o.adv), "bbox": [F(x) for x in o.bbox],
-                                    "size": F(o.size), "font": o.fontname, "col": cc})
-                    elif isinstance(o, LTFigure):
-                        walk(o)
-            walk(lt)
+    try:
+        doc = PDFDocument(PDFParser(io.BytesIO(pdf)))
+        pages = list(PDFPage.create_pages(doc))
+        alone = {}
+        if len(pages) > 1:
+            # later pages on their own first: nothing of this document has been interpreted yet
+            for k in range(len(pages) - 1, 0, -1):
+                try:
+                    alone[k] = interpret([pages[k]])[0]
+                except RecursionError:
+                    raise
+                except Exception as e:  # noqa: BLE001
+                    alone[k] = "EXC:" + type(e).__name__
+        per_page = interpret(pages)
     except RecursionError:
-        return ("exc", "RecursionError")
+        return ("exc", "RecursionError", None)
     except Exception as e:  # noqa: BLE001
         import traceback
         tb = traceback.extract_tb(e.__traceback__)
         where = next((f"{os.path.basename(fr.filename)}:{fr.name}" for fr in reversed(tb) if "pdfminer" in fr.filename), "?")
-        return ("exc", f"{type(e).__name__}@{where}")
-    return ("ok", out)
+        return ("exc", f"{type(e).__name__}@{where}", None)
+    dep = None
+    for k, a in sorted(alone.items()):
+        if isinstance(a, str):
+            dep = (k, "exception alone: " + a)
+            break
+        d = seq_diff(a, per_page[k])
+        if d is not None:
+            dep = (k, d[1])
+            break
+    return ("ok", [g for pg in per_page for g in pg], dep)
 
 
 # ------------------------------------------------------------------------------------------ Python twin of the spec
@@ -1186,12 +1225,18 @@ def evaluate(case: dict, lean_spec=None):
     """Property on the implementation.  Returns (status, detail): status in ok|out|fail."""
     sp = lean_spec if lean_spec is not None else py_spec(case)
     if sp[0] != "ok":
+        if case.get("more_pages"):
+            im = run_impl(case)
+            if im[0] == "ok" and im[2] is not None:
+                return ("fail", ("page-dependence", im[2][0], None, None), im)
         return ("out", sp[1], None)
     im = run_impl(case)
     if im[0] == "exc":
         return ("fail", ("exception", im[1], None, None), im)
     d = seq_diff(im[1], sp[1])
     if d is None:
+        if im[2] is not None:
+            return ("fail", ("page-dependence", im[2][0], None, None), im)
         return ("ok", None, im)
     i, field = d
     return ("fail", (field, i, im[1][i] if i < len(im[1]) else None, sp[1][i] if i < len(sp[1]) else None), im)
@@ -1207,6 +1252,8 @@ def still_fails_like(case, sig_field) -> bool:
 def classify_field(field: str) -> str:
     if field == "exception":
         return "exception"
+    if field == "page-dependence":
+        return "page-dependence"
     if field.startswith("count"):
         return "count"
     if field.startswith("matrix") or field.startswith("bbox") or field == "size":
@@ -1348,16 +1395,22 @@ def flush(ctx: C.Ctx, batch: list) -> None:
         # The Lean spec uses the matrix helpers regenerated from utils.py; when it and the twin (which shares no
         # code with the repo) differ, the twin is the oracle so that the edit is still reported with a replay.
         sp = lsp if (lsp is not None and lsp[0] != "err" and not twin_differs) else psp
-        if sp[0] != "ok":
+        dep = im[2] if im[0] == "ok" else None
+        fail = None
+        if sp[0] == "ok":
+            if im[0] == "exc":
+                fail = ("exception", im[1], None, None)
+            else:
+                d = seq_diff(im[1], sp[1])
+                if d is not None:
+                    i, field = d
+                    fail = (field, i, im[1][i] if i < len(im[1]) else None, sp[1][i] if i < len(sp[1]) else None)
+        if fail is None and dep is not None:
+            # what is reported for a page must not depend on the pages interpreted before it - whether or not the
+            # text model gives the pages a meaning
+            fail = ("page-dependence", dep[0], None, None)
+        if fail is None:
             continue
-        if im[0] == "exc":
-            fail = ("exception", im[1], None, None)
-        else:
-            d = seq_diff(im[1], sp[1])
-            if d is None:
-                continue
-            i, field = d
-            fail = (field, i, im[1][i] if i < len(im[1]) else None, sp[1][i] if i < len(sp[1]) else None)
         cls = classify_field(fail[0])
         seen = ctx.extra.setdefault("failures_by_class", {})
         seen[cls] = seen.get(cls, 0) + 1
@@ -1400,7 +1453,8 @@ def flush(ctx: C.Ctx, batch: list) -> None:
                 "position": "glyph matrix / box differs from the position the PDF text model assigns",
                 "adv": "glyph advance differs from the PDF text model",
                 "font": "glyph font differs from the PDF text model",
-                "colour": "glyph fill colour differs from the PDF text model"}[classify_field(field)]
+                "colour": "glyph fill colour differs from the PDF text model",
+                "page-dependence": "the glyphs reported for a page depend on the pages interpreted before it"}[classify_field(field)]
         tags = tags_for(small, det[1] if isinstance(det[1], int) else -1, field, det[2], det[3])
         tags["min_ops"] = [op for op, _ in small["prog"]]
         if history:
@@ -1410,8 +1464,12 @@ def flush(ctx: C.Ctx, batch: list) -> None:
             what += " (only after other documents were interpreted in the same process)"
         if field == "exception":
             tags["exception"] = det[1]
-        ctx.fail(C.Failure(what, small, show_glyph(det[3]) if field != "exception" else "no exception",
-                           show_glyph(det[2]) if field != "exception" else det[1], tags))
+        if field == "page-dependence":
+            ctx.fail(C.Failure(what, small, "page %s reported as when interpreted on its own" % det[1],
+                               "differs after the pages before it", tags))
+        else:
+            ctx.fail(C.Failure(what, small, show_glyph(det[3]) if field != "exception" else "no exception",
+                               show_glyph(det[2]) if field != "exception" else det[1], tags))
     batch.clear()
 
 
